@@ -81,6 +81,8 @@ func opRemarshal(p []string) string {
 		oracle = "viol:remarshal-chain-failed-at-" + class
 	case !bytes.Equal(b2, b3):
 		oracle = "viol:not-a-fixpoint"
+	case nativeOnly(rv, p[0] == "json") && !bytes.Equal(b1, b2):
+		oracle = "viol:native-value-not-byte-identical-after-one-remarshal"
 	}
 	return fmt.Sprintf("I=%s/%s/%s/%s/%s O=%s", hexOrDash(b1), hexOrDash(b2), hexOrDash(b3), orDash(back), class, oracle)
 }
@@ -278,3 +280,53 @@ func runCLI(from, to string, data []byte) string {
 }
 
 var _ = strings.Join
+
+// nativeOnly: the value is built only from what an untyped variable holds natively
+// (nil, bool, int, float64, string, []byte, []interface{}, map[string]interface{}); for JSON, no -0.
+func nativeOnly(v reflect.Value, isJSON bool) bool {
+	switch v.Kind() {
+	case reflect.Interface:
+		if v.IsNil() {
+			return true
+		}
+		return nativeOnly(v.Elem(), isJSON)
+	case reflect.Bool, reflect.String:
+		return v.Type().PkgPath() == ""
+	case reflect.Int:
+		return v.Type() == reflect.TypeOf(int(0))
+	case reflect.Float64:
+		if v.Type() != reflect.TypeOf(float64(0)) {
+			return false
+		}
+		f := v.Float()
+		if isJSON && (f == 0 && 1/f < 0) {
+			return false
+		}
+		// JSON re-types integral floats as integers, whose text is the same: still byte-identical
+		return true
+	case reflect.Slice:
+		if v.Type() == reflect.TypeOf([]byte{}) {
+			return true
+		}
+		if v.Type() != reflect.TypeOf([]interface{}{}) {
+			return false
+		}
+		for i := 0; i < v.Len(); i++ {
+			if !nativeOnly(v.Index(i), isJSON) {
+				return false
+			}
+		}
+		return true
+	case reflect.Map:
+		if v.Type() != reflect.TypeOf(map[string]interface{}{}) {
+			return false
+		}
+		for _, k := range v.MapKeys() {
+			if !nativeOnly(v.MapIndex(k), isJSON) {
+				return false
+			}
+		}
+		return true
+	}
+	return false
+}
